@@ -12,10 +12,10 @@ CLAIMED = {
    note="Reduced scope: verdict logic and reporting kernels. Outside: that a certificate is found; size of A'z." + _TB, design="DESIGN.md §3 C02, §6"),
  "C03": dict(text=_KANI + "Decides that Almost* statuses arise only from error/limit statuses and only under the reduced tolerances, that rollback restores the saved iterate bit-for-bit, and that what the user reads (status, objectives, residuals, iterations, time, vectors) is what the solver holds.",
    note="Reduced scope. Outside: agreement of reported residual figures with an independent recomputation (floating-point norms)." + _TB, design="DESIGN.md §3 C03, §6"),
- "C04": dict(text=_KANI + "Runs the REAL generic Solver::solve main loop with stub components returning arbitrary values and the REAL DefaultInfo verdict logic: for all numerical behaviours the loop returns, in a terminal status, within max_iter iterations and max_iter+2 passes, stopping at the first check after the time limit. Plus: dimension checks reject exactly the inconsistent inputs; cone collapsing is total and canonical.",
+ "C04": dict(text=_KANI + "Runs the REAL generic Solver::solve main loop with stub components returning arbitrary values and the REAL DefaultInfo verdict logic: for all numerical behaviours the loop returns, in a terminal status, within max_iter iterations and max_iter+2 passes, stopping at the first check after the time limit. Plus: dimension checks reject exactly the inconsistent inputs.",
    note="Bounds max_iter<=2 quick / <=4 thorough. Outside: panics/hangs inside the numeric components for extreme data; wall clock. Stubs: Timers methods, RandomState::new, barrier search cut to 3 evaluations." + _TB, design="DESIGN.md §3 C04, §6"),
- "C05": dict(text=_KANI + "Decides only the two normalisations that turn equivalent inputs into the identical internal problem: nonnegative cones split/merged/padded collapse to the same cone list; a full symmetric P is reduced to the canonical upper triangle and a triu P is taken as is.",
-   note="Everything else in C05 (permutations, scaling, backends, threads, concurrency, repeatability) compares end-to-end floating-point runs: NOT decided." + _TB, design="DESIGN.md §3 C05, §6"),
+ "C05": dict(text=_KANI + "Decides only ONE normalisation that turns equivalent inputs into the identical internal problem: a full symmetric P is reduced to the canonical upper triangle and a triu P is taken as is (CscMatrix::to_triu / is_triu, all 2x2 patterns, symbolic values).",
+   note="Cone collapsing (split/merged nonnegative cones) is NOT decided (Vec<enum> output: intractable, DESIGN 6.2.15). Everything else in C05 (permutations, scaling, backends, threads, concurrency, repeatability) compares end-to-end floating-point runs: NOT decided." + _TB, design="DESIGN.md §3 C05, §6"),
  "C07": dict(text=_KANI + "Decides that the tau/kappa step length lies in [0,1], that NN/SOC step lengths lie in [0, alpha_max] for every f64, and that the termination verdict is independent of the remaining iteration budget.",
    note="Reduced scope. Outside: strict interiority after a step for SOC/exp/pow/PSD; tau',kappa'>0 after the step (rounded product)." + _TB, design="DESIGN.md §3 C07, §6"),
  "C08": dict(text=_KANI + "Decides the public update traits that update_P/q/A/b delegate to, for every argument form: accepted updates write value*scale*c at the true coordinates (exact over GF(13)); wrong lengths, out-of-range indices and pattern mismatches are errors that leave whole-vector/matrix targets untouched; empty updates are no-ops; cached norms are recomputed.",
